@@ -21,6 +21,7 @@ BUDGET = {
     "quick": {"examples": 120, "shards": 4, "case_timeout": 90, "wall_budget": 240},
     "thorough": {"examples": 3000, "shards": 16, "case_timeout": 300, "wall_budget": 1800},
 }
+FUZZ = {"thorough": dict(runs=20000, procs=8, wall_s=600)}
 TOLERANCES = {"gradient_relative": 1e-9}
 
 
